@@ -982,6 +982,11 @@ fn c01_transports(thorough: bool, reqlen: usize, ss: usize) -> Vec<Tr> {
         vec![1; 14],
         vec![0, 8208],
         vec![8, 8, 0, 128, 8192],
+        // the 16-byte reply header ends strictly inside a descriptor that is not the first one
+        vec![8, 8200],
+        vec![8, 12, 8192],
+        vec![4, 4, 4, 4100],
+        vec![1, 8207],
         vec![120],
         vec![143],
         vec![144],
